@@ -80,6 +80,9 @@ static void pairs(Env& env, const std::string& stage, int n, int L, int k) {
         if (!ref::equalLang(R, prod)) { bool tooBig = !ref::included(R, prod); c.viol("Intersection", tooBig ? "accepts_word_outside_intersection" : "misses_word_of_intersection", feats, det("result: " + R.str()), w); } }
       { AutBase::ProductTranslMap pm; ExplicitFiniteAut r = ExplicitFiniteAut::Intersection(a, b, &pm); ref::NFA R = ref::readBackFA(r);
         if (!ref::equalLang(R, prod)) { bool tooBig = !ref::included(R, prod); c.viol("Intersection(map)", tooBig ? "accepts_word_outside_intersection" : "misses_word_of_intersection", feats, det("result: " + R.str()), w); } }
+      if (idx / M == idx % M) { c.count("aliased_operand_cases");   // the same object as both operands
+        { ExplicitFiniteAut r = ExplicitFiniteAut::Union(a, a); if (!ref::equalLang(ref::readBackFA(r), A)) c.viol("Union(aliased)", "language_not_the_union", feats, det("Union(a, a); result: " + ref::readBackFA(r).str()), w); }
+        { ExplicitFiniteAut r = ExplicitFiniteAut::Intersection(a, a); if (!ref::equalLang(ref::readBackFA(r), A)) c.viol("Intersection(aliased)", "language_not_the_intersection", feats, det("Intersection(a, a); result: " + ref::readBackFA(r).str()), w); } }
       if (ref::readBackFA(a) != A || ref::readBackFA(b) != B) c.viol("pair operations", "operand_changed", feats, det(""), w);
     } catch (std::exception& e) { c.viol("pair operations", "exception", feats, det(e.what()), w); }
   };
